@@ -595,3 +595,240 @@ func ruleBoundsNotAsUnixNano(c *Ctx) {
 	}
 	c.Floor(rule, "executor, planner, frontend", "UnixNano call sites (positive control: WAL file naming, transaction ids)", n, 1)
 }
+
+// R7.5 — one flush covers everything that was queued when it started: in FlushToWAL the loop that
+// drains the write channel runs exactly len(writeChannel)-as-sampled-at-entry times — the bound
+// has a single definition, `len(<write channel>)`, is never clamped or reassigned, and the loop has
+// no early exit. The requester (RequestFlush, the flush handshake of SyncWAL, Shutdown) runs ONE
+// FlushToWAL and then reports success; a flush that leaves part of the backlog in the in-memory
+// channel acknowledges records that are in neither the WAL nor the primary files.
+func ruleFlushDrainsBacklog(c *Ctx) {
+	const rule = "R7.5"
+	const ch = "executor.TransactionPipe.writeChannel"
+	s := c.S(rule, fnFlushToWAL)
+	if s == nil {
+		return
+	}
+	info := s.Info
+	par := c.P.Parents(c.P.FileOf(s.Pkg, s.Body.Pos()))
+	isLenCh := func(e ast.Expr) bool {
+		cx, ok := unparen(e).(*ast.CallExpr)
+		if !ok || len(cx.Args) != 1 {
+			return false
+		}
+		id, ok := unparen(cx.Fun).(*ast.Ident)
+		return ok && id.Name == "len" && fieldKey(info, cx.Args[0]) == ch
+	}
+	defsOf := func(o types.Object) (defs []ast.Expr, other int) {
+		s.walk(func(m ast.Node) bool {
+			switch x := m.(type) {
+			case *ast.AssignStmt:
+				for i, l := range x.Lhs {
+					if identObj(info, l) != o {
+						continue
+					}
+					if x.Tok != token.ASSIGN && x.Tok != token.DEFINE {
+						other++ // op-assign modifies the bound
+						continue
+					}
+					if len(x.Rhs) == len(x.Lhs) {
+						defs = append(defs, x.Rhs[i])
+					} else {
+						other++
+					}
+				}
+			case *ast.IncDecStmt:
+				if identObj(info, x.X) == o {
+					other++
+				}
+			}
+			return true
+		})
+		return
+	}
+	n := 0
+	s.walk(func(m ast.Node) bool {
+		u, ok := m.(*ast.UnaryExpr)
+		if !ok || u.Op != token.ARROW || fieldKey(info, u.X) != ch {
+			return true
+		}
+		n++
+		// enclosing loop
+		var li *loopInfo
+		for p := par[u]; p != nil; p = par[p] {
+			if l := asLoop(info, p); l != nil {
+				li = l
+				break
+			}
+			if _, ok := p.(*ast.FuncDecl); ok {
+				break
+			}
+		}
+		where := c.P.Pos(u.Pos())
+		if li == nil {
+			c.Violate(rule, s.Name, "drain-loop", where, "the write channel is received from outside a loop: only one queued command is taken per flush", nil)
+			return true
+		}
+		// the bound of the loop
+		var bound ast.Expr
+		switch x := li.Node.(type) {
+		case *ast.ForStmt:
+			if b, ok := unparen(x.Cond).(*ast.BinaryExpr); ok && (b.Op == token.LSS || b.Op == token.NEQ || b.Op == token.GTR) {
+				bound = b.Y
+				if b.Op == token.GTR {
+					bound = b.X
+				}
+			}
+		case *ast.RangeStmt:
+			// range over a slice made with the sampled length
+			if o := identObj(info, x.X); o != nil {
+				if ds, other := defsOf(o); other == 0 && len(ds) == 1 {
+					if mk, ok := unparen(ds[0]).(*ast.CallExpr); ok && len(mk.Args) >= 2 {
+						if id, ok := unparen(mk.Fun).(*ast.Ident); ok && id.Name == "make" {
+							bound = mk.Args[1]
+						}
+					}
+				}
+			} else {
+				bound = x.X // `for range n`
+			}
+		}
+		okBound, whyBound := false, "the loop bound was not recognised"
+		if bound != nil {
+			switch {
+			case isLenCh(bound):
+				okBound, whyBound = true, "bound is len(write channel) itself"
+			default:
+				if o := identObj(info, bound); o != nil {
+					ds, other := defsOf(o)
+					switch {
+					case other > 0 || len(ds) != 1:
+						whyBound = fmt.Sprintf("the bound `%s` is assigned %d times / modified %d times (a clamp or adjustment of the sampled backlog length)", o.Name(), len(ds), other)
+					case !isLenCh(ds[0]):
+						whyBound = "the bound `" + o.Name() + "` is not defined as len(write channel) but as " + types.ExprString(ds[0])
+					default:
+						okBound, whyBound = true, "bound `"+o.Name()+"` := len(write channel), defined once, never modified"
+					}
+				}
+			}
+		}
+		c.Check(okBound, rule, s.Name, "drain-bound-is-sampled-backlog", c.P.Pos(li.Node.Pos()),
+			"the drain loop takes exactly the number of commands that were queued when the flush started ("+whyBound+"): a smaller bound leaves acknowledged commands in the in-memory channel")
+		// no early exit from the drain loop
+		var exit ast.Node
+		walkAll(li.Body, func(k ast.Node) bool {
+			switch y := k.(type) {
+			case *ast.FuncLit:
+				return false
+			case *ast.ReturnStmt:
+				exit = y
+			case *ast.BranchStmt:
+				if y.Tok == token.GOTO || (y.Tok == token.BREAK && (y.Label != nil || innermostBreakTarget(par, y) == li.Node)) {
+					exit = y
+				}
+			}
+			return exit == nil
+		})
+		if exit != nil {
+			c.Violate(rule, s.Name, "drain-loop-runs-to-the-bound", c.P.Pos(exit.Pos()),
+				"the loop that drains the write channel can stop early (break/return): the rest of the backlog stays in the in-memory channel although the single flush the requester waits for reports success", nil)
+		} else {
+			c.Hold(rule, s.Name, "drain-loop-runs-to-the-bound", c.P.Pos(li.Node.Pos()), "no break/return/goto inside the drain loop")
+		}
+		return true
+	})
+	c.Floor(rule, s.Name, "receives from the write channel", n, 1)
+}
+
+// innermostBreakTarget: the loop/switch/select statement an unlabeled break leaves.
+func innermostBreakTarget(par map[ast.Node]ast.Node, br ast.Node) ast.Node {
+	for p := par[br]; p != nil; p = par[p] {
+		switch p.(type) {
+		case *ast.ForStmt, *ast.RangeStmt, *ast.SwitchStmt, *ast.TypeSwitchStmt, *ast.SelectStmt:
+			return p
+		case *ast.FuncDecl, *ast.FuncLit:
+			return nil
+		}
+	}
+	return nil
+}
+
+// R3.5 — rebuilding the catalog at start-up skips a sub-directory without a category file and goes
+// on with its siblings: inside the directory scan of catalog.load, after the recursive load of a
+// sub-directory failed, a `return` is reachable only on the edge where the error was tested NOT to
+// be the "category file not found" class. A crash between the mkdir of a new bucket's directory
+// and the write of its category file leaves exactly such a directory; aborting the scan there
+// drops every bucket that sorts after it from the catalog (the server starts, their data is
+// unreachable).
+func ruleCatalogLoadTolerant(c *Ctx) {
+	const rule = "R3.5"
+	s := c.S(rule, "catalog.load")
+	if s == nil {
+		return
+	}
+	info := s.Info
+	par := c.P.Parents(c.P.FileOf(s.Pkg, s.Body.Pos()))
+	n := 0
+	for _, site := range s.sites(callPred(s, "catalog.load")) {
+		call := site.(*ast.CallExpr)
+		// the scan loop around the recursive call
+		var loop ast.Node
+		for p := par[call]; p != nil; p = par[p] {
+			if asLoop(info, p) != nil {
+				loop = p
+				break
+			}
+			if _, ok := p.(*ast.FuncDecl); ok {
+				break
+			}
+		}
+		if loop == nil {
+			continue
+		}
+		n++
+		top := s.topOf(call)
+		obj, bound := assignedLastResult(info, top, call)
+		if !bound || obj == nil {
+			c.Violate(rule, s.Name, "subdir-load-error-handled", c.P.Pos(call.Pos()), "the error of loading a sub-directory is discarded", nil)
+			continue
+		}
+		notCategoryClass := func(f []Fact) bool {
+			for _, x := range f {
+				if x.Tag != nil {
+					continue
+				}
+				// err == nil edge
+				if o, trueNonNil, ok := nilTest(info, x.Expr); ok && o == obj && x.Val != trueNonNil {
+					return true
+				}
+				// errors.As(err, &ErrCategoryFileNotFound{}) / errors.Is(...) is FALSE on this edge
+				if cx, ok := unparen(x.Expr).(*ast.CallExpr); ok && !x.Val {
+					nm := CalleeName(info, cx)
+					if (nm == "errors.As" || nm == "errors.Is") && len(cx.Args) == 2 {
+						if t := info.TypeOf(cx.Args[1]); t != nil && strings.Contains(types.TypeString(t, nil), "ErrCategoryFileNotFound") {
+							return true
+						}
+					}
+				}
+			}
+			return false
+		}
+		r := s.Run(Query{
+			Start: func(sub, _ ast.Node) bool { return sub == ast.Node(call) },
+			Target: func(sub, _ ast.Node) bool {
+				rs, ok := sub.(*ast.ReturnStmt)
+				return ok && rs.Pos() >= loop.Pos() && rs.End() <= loop.End()
+			},
+			// only the rest of THIS iteration: the first statement of the loop body ends the search
+			Barrier: func(sub, top ast.Node) bool {
+				li := asLoop(info, loop)
+				return li != nil && len(li.Body.List) > 0 && top == ast.Node(li.Body.List[0]) && sub == top
+			},
+			Exempt: notCategoryClass,
+		})
+		c.reportHits(rule, s, "missing-category-file-skips-only-that-directory", r,
+			"after a sub-directory failed to load, the scan returns only behind a test that the failure is NOT the missing-category-file class (that class is logged and skipped)",
+			"the directory scan can return for a sub-directory whose category file is missing (a half-created bucket after a crash): every sibling that sorts after it is dropped from the catalog")
+	}
+	c.Floor(rule, s.Name, "recursive loads inside the directory scan", n, 1)
+}
